@@ -7,7 +7,47 @@ import struct
 
 from . import core
 
-SHIM = os.path.join(core.VERIF, "bin", "nqshim.so")
+def _world_readable(path):
+    """can a process of an arbitrary uid load this file? (every directory o+x, the file o+r)"""
+    try:
+        if not os.stat(path).st_mode & 0o004:
+            return False
+        d = os.path.dirname(path)
+        while True:
+            if not os.stat(d).st_mode & 0o001:
+                return False
+            if d == "/":
+                return True
+            d = os.path.dirname(d)
+    except OSError:
+        return False
+
+
+def _bindir():
+    """directory of the helper binaries (preload object, qq-rec, ql-rec, pw-rec); copied to a world-readable
+    scratch directory when the checkout is not (a snapshot below /root, say): the programs under test, and the
+    helpers they start, run under several non-root uids"""
+    d = os.environ.get("NQV_BIN_DIR")
+    if d and os.path.isdir(d):
+        return d
+    d = os.path.join(core.VERIF, "bin")
+    if os.path.isdir(d) and not all(_world_readable(os.path.join(d, f)) for f in os.listdir(d)):
+        import shutil
+        from . import build
+        q = build.mktemp("nqv-bin-")
+        os.chmod(q, 0o755)
+        for f in os.listdir(d):
+            shutil.copy(os.path.join(d, f), os.path.join(q, f))
+            os.chmod(os.path.join(q, f), 0o755)
+        os.environ["NQV_BIN_DIR"] = d = q
+    return d
+
+
+def tool(name):
+    return os.path.join(_bindir(), name)
+
+
+SHIM = tool("nqshim.so")
 T0 = 1700000000
 
 
